@@ -118,6 +118,7 @@ func c10(c *Ctx) (*report.Result, error) {
 	res.RuleDoc["O10.4"] = "owned connection / session: from a successful NewConnection (resp. sessionFn, Accept) every path to the loop head or a return closes the connection (resp. session) or hands it over - also during shutdown"
 	res.RuleDoc["O10.6"] = "the session table's locks cannot wedge their holder: inside a critical section of any mutex of transport/mux, transport/mux/session and transport/grpcutil no call acquires the same (non-reentrant) mutex again, and these mutexes nest in one order"
 	res.RuleDoc["O10.7"] = "session ids are never reused while the manager lives: the key under which AddConnection inserts a session derives from a field that is incremented by one in the same write-locked section on every insertion - a key derived from something that can shrink (the table's length) collides with a live session after any single death, the replacement overwrites a healthy session and the table stays one short"
+	res.RuleDoc["O10.9"] = "the limit is the configured one: the pool size handed to the connection providers is cd.MuxCount whenever it is set (the default applies only under MuxCount == 0 / <= 0) - a guard such as `> 1` silently turns a configured limit of 1 into the default of 10"
 	res.RuleDoc["O10.5"] = "shutdown order: onClose waits for the provider, then closes every session of the table under the table lock, then signals; AddConnection tests the lifetime under the same lock"
 
 	loop := connectLoop(c, res)
@@ -156,6 +157,7 @@ func c10(c *Ctx) (*report.Result, error) {
 		}
 		checkNoBlockingUnderLock(c, res, "O10.8", pk, func(string, string) bool { return true }, muxLockAllowed)
 	}
+	checkConfiguredLimit(c, res, "O10.9")
 	return res, nil
 }
 
@@ -766,4 +768,114 @@ func checkSessionIDs(c *Ctx, res *report.Result, rule string) {
 		}
 	}
 	res.Check(okCounter != "", rule, "AddConnection: session id is never reused", instrPos(c.Prog, ins), "id from "+okCounter+", incremented by one under muxesLock with every insertion", fmt.Sprintf("the inserted key does not derive from a field that is incremented in the same locked section (origins: %v): ids may repeat", sortedKeys(fields)))
+}
+
+// checkConfiguredLimit: see O10.9.
+func checkConfiguredLimit(c *Ctx, res *report.Result, rule string) {
+	f := resolve(c, res, rule, anchor{"transport/mux", "", "NewGRPCMuxManager"})
+	if f == nil {
+		return
+	}
+	n := 0
+	for _, g := range append([]*ssa.Function{f}, flow.AnonFuncsDeep(f)...) {
+		for _, call := range flow.Calls(g) {
+			cal := flow.StaticCallee(call.Common())
+			if cal == nil || (cal.Name() != "NewMuxEstablisherProvider" && cal.Name() != "NewMuxReceiverProvider") {
+				continue
+			}
+			// the size argument: int64(muxCount)
+			var size ssa.Value
+			for _, a := range call.Common().Args {
+				if cv, ok := a.(*ssa.Convert); ok && types.Identical(cv.Type().Underlying(), types.Typ[types.Int64]) {
+					size = cv.X
+				}
+			}
+			if size == nil {
+				continue
+			}
+			n++
+			v := flow.Strip(flow.ResolveLoad(size))
+			if fv, isFV := v.(*ssa.FreeVar); isFV {
+				if bnd := freeVarBinding(fv); bnd != nil {
+					v = flow.Strip(flow.ResolveLoad(bnd))
+				}
+			}
+			ok := false
+			why := "the pool size is not `cd.MuxCount if set, else a default`: " + flow.Describe(v)
+			// candidate values with the guards under which they are chosen: phi edges, or the stores into a cell
+			type cand struct {
+				val ssa.Value
+				gs  []flow.Guard
+			}
+			var cands []cand
+			if phi, isPhi := v.(*ssa.Phi); isPhi {
+				for i, e := range phi.Edges {
+					cands = append(cands, cand{e, flow.NormGuards(flow.EdgeGuards(phi.Block().Preds[i], phi.Block()))})
+				}
+			} else {
+				var cell *ssa.Alloc
+				if ld, isLd := v.(*ssa.UnOp); isLd && ld.Op == token.MUL {
+					switch y := ld.X.(type) {
+					case *ssa.Alloc:
+						cell = y
+					case *ssa.FreeVar:
+						cell, _ = freeVarBinding(y).(*ssa.Alloc)
+					}
+				}
+				if cell != nil {
+					for _, r := range *cell.Referrers() {
+						if st, isSt := r.(*ssa.Store); isSt && st.Addr == ssa.Value(cell) {
+							cands = append(cands, cand{st.Val, flow.NormGuards(flow.Guards(st.Block()))})
+						}
+					}
+				}
+			}
+			if len(cands) > 0 {
+				okAll := true
+				sawField := false
+				for _, cd := range cands {
+					e := cd.val
+					if _, isC := flow.ConstInt(e); isC {
+						continue // default
+					}
+					p, _ := flow.FieldPath(e)
+					if !strings.HasSuffix(p, ".MuxCount") {
+						okAll = false
+						why = "the pool size can come from " + p
+						continue
+					}
+					sawField = true
+					good := false
+					for _, gd := range cd.gs {
+						bo, isB := gd.Cond.(*ssa.BinOp)
+						if !isB {
+							continue
+						}
+						k, isK := flow.ConstInt(bo.Y)
+						px, _ := flow.FieldPath(bo.X)
+						if !isK || !strings.HasSuffix(px, ".MuxCount") {
+							continue
+						}
+						if k == 0 && ((bo.Op == token.NEQ && gd.Side) || (bo.Op == token.GTR && gd.Side) || (bo.Op == token.EQL && !gd.Side) || (bo.Op == token.LEQ && !gd.Side)) {
+							good = true
+						}
+						if k == 1 && ((bo.Op == token.GEQ && gd.Side) || (bo.Op == token.LSS && !gd.Side)) {
+							good = true
+						}
+						if !good {
+							why = fmt.Sprintf("the configured count is used only under (%s) = %v: a set value outside that range (e.g. 1) is replaced by the default", flow.Describe(gd.Cond), gd.Side)
+						}
+					}
+					if !good {
+						okAll = false
+					}
+				}
+				ok = okAll && sawField
+			}
+			res.Check(ok, rule, fmt.Sprintf("NewGRPCMuxManager: pool size of %s is the configured MuxCount whenever it is set", cal.Name()), instrPos(c.Prog, call), "phi(default under MuxCount == 0, cd.MuxCount otherwise)", why)
+		}
+	}
+	if n < 2 {
+		res.Undec(rule, "NewGRPCMuxManager: provider constructions", fnPos(c.Prog, f), fmt.Sprintf("%d found, 2 confirmed by hand", n))
+	}
 }
